@@ -16,18 +16,20 @@
         * a second round trip changes nothing (obs equality, exact);
         * validate_sbml_model on the written document: no SBML_FATAL / SBML_ERROR / SBML_SCHEMA_ERROR / COBRA_FATAL /
           COBRA_ERROR entries (libsbml's validator is the oracle for "valid").
-(iii) the SBML files shipped in src/cobra/data and tests/data that libsbml's validator accepts (the invalid fixtures and
-      files with validator errors are skipped and listed): read with default ids and with f_replace={} and compared with an
+(iii) the SBML files shipped in src/cobra/data and tests/data except the intentionally invalid fixtures (invalid0-2.xml,
+      validation.xml; the two genome-scale files only in the thorough tier): read with default ids and with f_replace={} and
+      compared with an
       independent ElementTree extraction of listOfReactions / fbc flux bounds (v2 parameters, v1 listOfFluxBounds, legacy
       kinetic-law LOWER_BOUND / UPPER_BOUND / OBJECTIVE_COEFFICIENT) / fbc objective: reaction ids, stoichiometry, bounds
       (absent bounds: the configured defaults, which the reader announces in a warning), objective coefficients and
-      direction; exchange reactions that the reader adds (with a warning) for boundary species are allowed.  The files are
-      also sent through the round trip of (ii).
+      direction; exchange reactions that the reader adds (with a warning) for boundary species are allowed.  The model read
+      from each file is also sent through the round trip of (ii) after `to_domain` (notes restricted to plain text,
+      singleton annotation lists written as strings: the input domain of DESIGN.md C10).
 
 Failure keys: one per root cause.  Differences are classified by `gen_io.diff_aspects` (a consequence of a reported cause is
 not reported again) and named "sbml:<aspect>"; the input classes of the defects found on the unchanged tree have their own
 keys (see NOTES_C10.md): sbml:id-digits-escape, sbml:bounds-above-default, sbml:group-gene-member, sbml:gene-empty-name,
-sbml:charge-none.
+sbml:charge-none, sbml:empty-reaction-invalid, sbml:no-objective-invalid.
 """
 import bz2
 import gzip
@@ -234,9 +236,6 @@ def check_model(model, channels, modes, tmp, tag, idem_channel=None, validate=Tr
                 continue
             if first_text is None:
                 first_text = text
-            elif text != first_text:
-                add("sbml:channels-differ", "the document written through this channel differs from the first channel's",
-                    channel, mode)
             try:
                 m1 = _read(src, mode)
             except Exception as e:  # noqa
@@ -459,14 +458,15 @@ def check_file(path, roundtrip=True, skip_invalid=False):
 
     def add(key, text):
         fails.append({"key": key, "failure": f"{name}: {text}"[:500], "replay": {"kind": "file", "file": str(path), "key": key}})
-    # validity: libsbml's own consistency check (units and modelling practice off, as cobra's validator does)
-    doc = libsbml.readSBMLFromFile(str(path))
-    doc.setConsistencyChecks(libsbml.LIBSBML_CAT_UNITS_CONSISTENCY, False)
-    doc.setConsistencyChecks(libsbml.LIBSBML_CAT_MODELING_PRACTICE, False)
-    doc.checkConsistency()
-    nerr = sum(1 for k in range(doc.getNumErrors()) if doc.getError(k).getSeverity() >= libsbml.LIBSBML_SEV_ERROR)
-    if nerr and skip_invalid:
-        return f"skipped: libsbml reports {nerr} error(s)", 0, []
+    if skip_invalid:
+        # libsbml's own consistency check (units and modelling practice off, as cobra's validator does)
+        doc = libsbml.readSBMLFromFile(str(path))
+        doc.setConsistencyChecks(libsbml.LIBSBML_CAT_UNITS_CONSISTENCY, False)
+        doc.setConsistencyChecks(libsbml.LIBSBML_CAT_MODELING_PRACTICE, False)
+        doc.checkConsistency()
+        nerr = sum(1 for k in range(doc.getNumErrors()) if doc.getError(k).getSeverity() >= libsbml.LIBSBML_SEV_ERROR)
+        if nerr:
+            return f"skipped: libsbml reports {nerr} error(s)", 0, []
     ext = et_extract(path)
     cfg = cobra.Configuration()
     n = 0
@@ -624,7 +624,7 @@ def run(tier: str, seed: int) -> dict:
         "distinct_nontrivial": n_strings * 4 + counts["models"] + len(counts["files_checked"]),
         "rule": "escapers: every (string, escaper pair); models: every generated model (distinct by (family, seed, index); each "
                 "goes through 4 channels x 1-2 id modes, compared, re-tripped once per mode, validated once per mode, optimised); "
-                "files: every shipped SBML file that libsbml accepts, each reaction / objective compared with the ElementTree "
+                "files: every shipped SBML file except the invalid fixtures, each reaction / objective compared with the ElementTree "
                 "extraction in two id modes and round-tripped",
         "bounds": {"escaper_alphabets": [ALPHA1, ALPHA2], "escaper_max_len": [L, 4], "families": {k: sum(1 for c in cases if c[0] == k)
                                                                                                for k in gen_io.FAMILIES},
